@@ -1,99 +1,9 @@
-(* bytes.TrimSpace / strings.Fields as the models use them (Lib/Bytes.v [space_prefix],
-   [space_suffix_rev'], [trim_space]; Build.v [fields]) against a rune-level reading: the
-   white-space runes are the 25 code points of Unicode's White_Space property (what
-   unicode.IsSpace accepts), a string is trimmed of / split at their UTF-8 encodings.
-   The byte-pattern tables of the models are shown to recognise exactly these encodings,
-   from the front and from the back. *)
+(* bytes.TrimSpace / strings.Fields of the models at rune level, on top of the table facts of
+   SpaceTables.v. *)
 From Coq Require Import List Bool Arith NArith Lia.
 From Coq.Strings Require Import Byte.
-From GI Require Import Lib.Bytes Lib.BytesFacts Imports.Scan.
+From GI Require Import Lib.Bytes Lib.BytesFacts Imports.Build Imports.SpaceTables.
 Import ListNotations.
-
-(* unicode.IsSpace: U+0009..U+000D, U+0020, U+0085, U+00A0, U+1680, U+2000..U+200A, U+2028,
-   U+2029, U+202F, U+205F, U+3000 *)
-Definition space_runes : list N :=
-  [9; 10; 11; 12; 13; 32; 133; 160; 5760; 8192; 8193; 8194; 8195; 8196; 8197; 8198; 8199; 8200;
-   8201; 8202; 8232; 8233; 8239; 8287; 12288]%N.
-Definition is_space_rune (r : N) : bool := existsb (N.eqb r) space_runes.
-
-(* utf8.AppendRune *)
-Definition utf8_enc (r : N) : bytes := rev (utf8_encode_rev r).
-
-(* [d] starts with the encoding of a white-space rune, [n] bytes long *)
-Definition space_at_front (d : bytes) (n : nat) : Prop :=
-  exists r, is_space_rune r = true /\ has_prefix (utf8_enc r) d = true /\ length (utf8_enc r) = n.
-(* [q] (a reversed string) starts with the reversed encoding: the string ends with the encoding *)
-Definition space_at_back (q : bytes) (n : nat) : Prop :=
-  exists r, is_space_rune r = true /\ has_prefix (rev (utf8_enc r)) q = true /\ length (utf8_enc r) = n.
-
-Ltac try_runes P l :=
-  match l with
-  | ?r :: ?l' => first [ exists r; split; [reflexivity | split; reflexivity] | try_runes P l' ]
-  end.
-Ltac witness := let l := eval unfold space_runes in space_runes in try_runes tt l.
-
-(* evaluate the table on the bytes known so far: a numeral decides the case, a stuck match
-   asks for one more byte *)
-Ltac table_go f :=
-  match goal with
-  | |- (f ?q = 0 \/ _) =>
-      let v := eval cbv in (f q) in
-      lazymatch v with
-      | O => left; reflexivity
-      | S _ => right; witness
-      | _ =>
-          match q with
-          | _ :: ?r => is_var r; destruct r as [|?c r]; [left; reflexivity | destruct c; table_go f]
-          | _ :: _ :: ?r => is_var r; destruct r as [|?c r]; [left; reflexivity | destruct c; table_go f]
-          end
-      end
-  end.
-
-Lemma space_prefix_cases d :
-  space_prefix d = 0 \/ space_at_front d (space_prefix d).
-Proof.
-  unfold space_at_front. destruct d as [|b r]; [left; reflexivity|]. destruct b; table_go space_prefix.
-Qed.
-
-Lemma is_space_rune_In r : is_space_rune r = true -> In r space_runes.
-Proof.
-  unfold is_space_rune. intros H. apply existsb_exists in H. destruct H as [x [Hin Heq]].
-  apply N.eqb_eq in Heq. now subst x.
-Qed.
-
-Lemma space_front_prefix d n : space_at_front d n -> space_prefix d = n /\ n <> 0.
-Proof.
-  intros [r [Hr [Hp Hn]]]. apply is_space_rune_In in Hr. apply has_prefix_iff in Hp. destruct Hp as [x ->].
-  subst n. unfold space_runes in Hr. cbn [In] in Hr.
-  repeat (destruct Hr as [<-|Hr]; [split; [reflexivity|discriminate]|]). contradiction.
-Qed.
-
-(* the front table: exactly the encodings of the white-space runes *)
-Theorem space_prefix_spec d n : space_at_front d n <-> (space_prefix d = n /\ n <> 0).
-Proof.
-  split; [apply space_front_prefix|]. intros [<- Hn].
-  destruct (space_prefix_cases d) as [H|H]; [contradiction|exact H].
-Qed.
-
-Lemma space_suffix_cases q :
-  space_suffix_rev' q = 0 \/ space_at_back q (space_suffix_rev' q).
-Proof.
-  unfold space_at_back. destruct q as [|b r]; [left; reflexivity|]. destruct b; table_go space_suffix_rev'.
-Qed.
-
-Lemma space_back_suffix q n : space_at_back q n -> space_suffix_rev' q = n /\ n <> 0.
-Proof.
-  intros [r [Hr [Hp Hn]]]. apply is_space_rune_In in Hr. apply has_prefix_iff in Hp. destruct Hp as [x ->].
-  subst n. unfold space_runes in Hr. cbn [In] in Hr.
-  repeat (destruct Hr as [<-|Hr]; [split; [reflexivity|discriminate]|]). contradiction.
-Qed.
-
-(* the table read from the end: exactly the same encodings, reversed *)
-Theorem space_suffix_spec q n : space_at_back q n <-> (space_suffix_rev' q = n /\ n <> 0).
-Proof.
-  split; [apply space_back_suffix|]. intros [<- Hn].
-  destruct (space_suffix_cases q) as [H|H]; [contradiction|exact H].
-Qed.
 
 (* ------------------------------------------------------------------ *)
 (* bytes.TrimSpace at rune level                                       *)
@@ -161,3 +71,74 @@ Proof.
   - intros n Hn. apply space_suffix_spec in Hn. destruct Hn as [Hn Hz].
     pose proof (trim_right_zero x). congruence.
 Qed.
+
+(* ------------------------------------------------------------------ *)
+(* strings.Fields at rune level                                        *)
+
+(* no white-space rune starts at any position of [f] (read in front of [rest]) *)
+Definition space_free_in (f rest : bytes) : Prop :=
+  forall a b, f = a ++ b -> b <> [] -> forall n, ~ space_at_front (b ++ rest) n.
+
+(* [fsplit d fs]: d is white-space runes and the maximal white-space-free runs fs, in order *)
+Inductive fsplit : bytes -> list bytes -> Prop :=
+| fsp_nil : fsplit [] []
+| fsp_space r d fs : is_space_rune r = true -> fsplit d fs -> fsplit (utf8_enc r ++ d) fs
+| fsp_field f d fs : f <> [] -> space_free_in f d -> (d = [] \/ exists n, space_at_front d n) ->
+                     fsplit d fs -> fsplit (f ++ d) (f :: fs).
+
+Lemma fields_go_skip k : forall d, fields_go d [] k = fields_go (skipn k d) [] 0.
+Proof.
+  induction k as [|k IH]; intros d; [reflexivity|]. destruct d as [|b r]; [reflexivity|].
+  cbn [fields_go skipn]. apply IH.
+Qed.
+
+Lemma no_space_front d : space_prefix d = 0 -> forall n, ~ space_at_front d n.
+Proof. intros H n Hn. apply space_prefix_spec in Hn. destruct Hn. congruence. Qed.
+
+(* inside a field: it runs up to the next white-space rune or the end *)
+Lemma fields_go_in_field d : forall cur, cur <> [] ->
+  exists f' d', d = f' ++ d' /\ space_free_in f' d' /\ (d' = [] \/ exists n, space_at_front d' n)
+               /\ fields_go d cur 0 = (rev cur ++ f') :: fields_go d' [] 0.
+Proof.
+  induction d as [|b r IH]; intros cur Hc.
+  - exists [], []. split; [reflexivity|]. split; [|split; [now left|]].
+    + intros a b0 E Hb. destruct a; destruct b0; try discriminate. now elim Hb.
+    + cbn [fields_go]. destruct cur; [contradiction|]. cbn [flush_field]. now rewrite app_nil_r.
+  - cbn [fields_go]. destruct (space_prefix (b :: r)) as [|n] eqn:E.
+    + destruct (IH (b :: cur)) as [f' [d' [Hr [Hfree [Hend Hres]]]]]; [discriminate|].
+      exists (b :: f'), d'. split; [cbn; now rewrite Hr|]. split; [|split; [exact Hend|]].
+      * intros a b0 Eab Hb. destruct a as [|x a]; cbn [app] in Eab.
+        -- subst b0. cbn [app]. rewrite <- Hr. now apply no_space_front.
+        -- injection Eab as _ Eab. now apply (Hfree a b0).
+      * rewrite Hres. cbn [rev]. now rewrite <- app_assoc.
+    + exists [], (b :: r). split; [reflexivity|]. split; [|split].
+      * intros a b0 Eab Hb. destruct a; destruct b0; try discriminate. now elim Hb.
+      * right. exists (S n). apply space_prefix_spec. split; [exact E|discriminate].
+      * destruct cur; [contradiction|]. cbn [flush_field app]. rewrite app_nil_r. f_equal.
+        cbn [fields_go]. rewrite E. reflexivity.
+Qed.
+
+Lemma fields_go_fsplit n : forall d, length d <= n -> fsplit d (fields_go d [] 0).
+Proof.
+  induction n as [|n IH]; intros d Hlen.
+  - destruct d; [constructor|cbn in Hlen; lia].
+  - destruct d as [|b r]; [constructor|]. cbn [fields_go]. destruct (space_prefix (b :: r)) as [|k] eqn:E.
+    + destruct (fields_go_in_field r [b]) as [f' [d' [Hr [Hfree [Hend Hres]]]]]; [discriminate|].
+      rewrite Hres. cbn [rev app]. rewrite Hr. change (b :: f' ++ d') with ((b :: f') ++ d').
+      apply fsp_field; [discriminate| |exact Hend|].
+      * intros a b0 Eab Hb. destruct a as [|x a]; cbn [app] in Eab.
+        -- subst b0. cbn [app]. rewrite <- Hr. now apply no_space_front.
+        -- injection Eab as _ Eab. now apply (Hfree a b0).
+      * apply IH. subst r. cbn [length] in Hlen. rewrite app_length in Hlen. lia.
+    + assert (Hf : space_at_front (b :: r) (S k)) by (apply space_prefix_spec; split; [exact E|discriminate]).
+      destruct Hf as [r0 [Hr0 [Hp Hn]]]. apply has_prefix_iff in Hp. destruct Hp as [x Hx].
+      cbn [flush_field app]. rewrite fields_go_skip.
+      change (skipn k r) with (skipn (S k) (b :: r)). rewrite Hx, <- Hn, skipn_length_app.
+      apply fsp_space; [exact Hr0|]. apply IH.
+      assert (length (b :: r) = length (utf8_enc r0) + length x) by (rewrite Hx; apply app_length).
+      rewrite Hn in H. lia.
+Qed.
+
+(* strings.Fields: the maximal runs free of white-space runes, in order *)
+Theorem fields_spec d : fsplit d (fields d).
+Proof. unfold fields. now apply (fields_go_fsplit (length d)). Qed.
